@@ -131,12 +131,14 @@ def build_source(wspec):
       x = L.Conv2D(l["filters"], l["kernel"], strides=l.get("strides", 1),
                    padding=l["padding"], use_bias=l["use_bias"],
                    dilation_rate=l.get("dilation", 1),
+                   activation=l.get("conv_act"),
                    name="c%d%s" % (i, tag))(x)
     else:
       x = L.DepthwiseConv2D(l["kernel"], strides=l.get("strides", 1),
                             padding=l["padding"], use_bias=l["use_bias"],
                             dilation_rate=l.get("dilation", 1),
                             depth_multiplier=l.get("depth_multiplier", 1),
+                            activation=l.get("conv_act"),
                             name="c%d%s" % (i, tag))(x)
     x = L.BatchNormalization(center=l.get("center", True),
                              scale=l.get("scale", True),
@@ -161,12 +163,17 @@ def build_source(wspec):
         x = L.Add(name="skip%d" % i)([y, c])
         continue
       x = block(x, l, i)
+      if wspec.get("oplambda"):
+        # op layers with a DIFFERENT constant after every block
+        x = x * (1.5 + i)
+        x = x + (0.25 * (i + 1))
       if wspec.get("relu_between"):
         x = L.Activation("relu", name="act%d" % i)(x)
   if wspec.get("branch"):
     l = wspec["layers"][0]
     same = dict(l, padding="same", strides=1)
     same.pop("dilation", None)
+    same.pop("conv_act", None)
     a = block(inp, same, 90, "a")
     b = L.Conv2D(a.shape[-1], 1, padding="same", name="c91b")(inp)
     y = L.Add(name="add")([a, b])
@@ -373,6 +380,17 @@ class World:
             "depthwise_quantizer": "quantized_bits(16,5,1,alpha=1.0)",
             "bias_quantizer": "quantized_bits(16,5,1)"},
     }
+    # a conv with its own relu: model_quantize would turn it into the 8-bit,
+    # 0-integer-bit quantized_relu(activation_bits); give those layers (by
+    # name) a wide activation quantizer so that the comparison with the
+    # source stays about the structure
+    for i, l in enumerate(self.spec["layers"]):
+      if l.get("conv_act") and not (self.spec.get("skip") and i == 0):
+        qcfg["c%d" % i] = {
+            "kernel_quantizer": "quantized_bits(16,5,1,alpha=1.0)",
+            "depthwise_quantizer": "quantized_bits(16,5,1,alpha=1.0)",
+            "bias_quantizer": "quantized_bits(16,5,1)",
+            "activation_quantizer": "quantized_relu(20,8)"}
     fm = self.spec.get("convert_folding_mode")
     if fm:
       for k in ("QConv2DBatchnorm", "QDepthwiseConv2DBatchnorm"):
@@ -699,6 +717,12 @@ def generate(rng):
     world["relu_between"] = rng.chance(0.5)
     world["branch"] = rng.chance(0.4)
     world["skip"] = rng.chance(0.3)
+    world["oplambda"] = rng.chance(0.3)
+    for l in layers:
+      if rng.chance(0.25):
+        # a conv with its own activation in front of the BN: bn(relu(conv))
+        # is not relu(bn(conv)), such a pair must not be folded
+        l["conv_act"] = "relu"
     if rng.chance(0.5):
       world["convert_folding_mode"] = rng.pick(["ema_stats_folding",
                                                 "batch_stats_folding"])
@@ -788,6 +812,20 @@ def directed():
                                      "convert": True, "relu_between": True,
                                      "skip": True},
                 "ops": [{"k": "INFER", "xseed": 1}]})
+  for t in FOLDED:
+    l = {"t": t, "kernel": 2, "strides": 1, "padding": "same",
+         "use_bias": True, "center": True, "scale": True}
+    if t == "QConv2DBatchnorm":
+      l["filters"] = 2
+    out.append({"label": "directed:convert:%s:op-layers-between-blocks" % t,
+                "seed": 1, "world": {"layers": [l, dict(l)], "wseed": 9,
+                                     "convert": True, "oplambda": True},
+                "ops": [{"k": "INFER", "xseed": 1}]})
+    out.append({"label": "directed:convert:%s:conv-with-own-activation" % t,
+                "seed": 1, "world": {"layers": [dict(l, conv_act="relu"),
+                                                dict(l)], "wseed": 10,
+                                     "convert": True},
+                "ops": [{"k": "INFER", "xseed": 1}]})
   for branch in (False, True):
     for t in FOLDED:
       l = {"t": t, "kernel": 2, "strides": 1, "padding": "same",
@@ -806,7 +844,7 @@ def directed():
 
 def simplify(scn):
   w = scn["world"]
-  for key in ("convert", "branch", "relu_between", "skip"):
+  for key in ("convert", "branch", "relu_between", "skip", "oplambda"):
     if w.get(key):
       c = json.loads(json.dumps(scn))
       del c["world"][key]
@@ -822,6 +860,7 @@ def simplify(scn):
                      ("ema_freeze_delay", None), ("use_bias", True),
                      ("center", True), ("scale", True), ("strides", 1),
                      ("epsilon", None), ("momentum", None), ("act", None),
+                     ("conv_act", None),
                      ("dilation", 1)):
       if key in l and l[key] != val:
         c = json.loads(json.dumps(scn))
